@@ -725,14 +725,12 @@ impl Stable2 {
                         if let Some(s) = &sim {
                             let pfd = pf_a.saturating_sub(pf_b);
                             let burn = ra.checked_sub(ra_after).and_then(|d| d.checked_sub(got.saturating_add(pfd)));
-                            mon.check(
-                                "C03",
-                                "hist_swap_matches_simulation",
-                                got == s.return_amount.u128()
-                                    && pfd == s.protocol_fee_amount.u128()
-                                    && burn == Some(s.burn_fee_amount.u128()),
-                                desc,
-                            );
+                            let sim_ok = got == s.return_amount.u128()
+                                && pfd == s.protocol_fee_amount.u128()
+                                && burn == Some(s.burn_fee_amount.u128());
+                            mon.check("C03", "hist_swap_matches_simulation", sim_ok, desc);
+                            // the same fact is the two-asset stableswap clause of C14 (quotes are honest)
+                            mon.check("C14", "ss_pair_sim_eq_exec", sim_ok, desc);
                             let gross = got.saturating_add(s.swap_fee_amount.u128()).saturating_add(pfd).saturating_add(s.burn_fee_amount.u128());
                             if gross <= ra {
                                 match curve_slack_k(ro, ra, off, cfg.amp as u128, od, ad, ra - gross) {
